@@ -509,7 +509,7 @@ class Case:
                     out.append("@R %d " % j)
                     out.append("@A K " + canon(k, v))
         out.append("@DONE")
-        return out
+        return [l.rstrip() for l in out]     # the check strips trailing blanks of observed lines too
 
     # -- model queries -----------------------------------------------------------------------
     def model_queries(self):
